@@ -47,7 +47,7 @@ ODD = [
     "stoch_nodeps", "stoch_period_only", "restricted_stochastic", "filter_states_only", "only_cont_choices", "only_disc_choices",
     "next_for_nonstate", "state_only_in_transitions", "cont_var_in_filter", "name_contains_next", "filter_through_aux",
     "two_filters_one_state_only", "constant_aux", "log_state_and_choice", "transition_into_excluded_state",
-    "state_named_params", "state_named_vf_arr", "state_named_state_indexer", "choice_named_keys", "state_named_value", "three_constraints",
+    "state_named_params", "state_named_vf_arr", "state_named_state_indexer", "choice_named_keys", "state_named_value", "three_constraints", "state_names_start_with_next_letters",
 ]
 
 
@@ -241,6 +241,13 @@ def odd_source(odd, T):
     elif odd == "choice_named_keys":
         choices.append(("keys", "D(2)"))
         F["utility"] = "def utility(s, w, d, c, keys, a):\n    return jnp.log(c) + a * d * (s + 1) + 0.01 * w + 0.1 * keys"
+    elif odd == "state_names_start_with_next_letters":
+        # names that begin with characters of the string "next_" (n, e, x, t, _)
+        extra = [("experience", 3), ("tenure", 2), ("net", 2), ("xp", 2), ("_z", 2)]
+        for nm, k in extra:
+            states.append((nm, f"D({k})"))
+            F[f"next_{nm}"] = f"def next_{nm}({nm}, d):\n    return jnp.clip({nm} + d, 0, {k - 1})"
+        F["utility"] = "def utility(s, w, d, c, experience, tenure, net, xp, _z, a):\n    return jnp.log(c) + a * d * (s + 1) + 0.01 * w + 0.03 * experience - 0.02 * tenure * d + 0.01 * net + 0.02 * xp + 0.015 * _z"
     elif odd == "three_constraints":
         F["lb_constraint"] = "def lb_constraint(c):\n    return c >= 0.7629"
         F["dw_constraint"] = "def dw_constraint(d, w):\n    return d <= w - 0.7371"
